@@ -84,13 +84,14 @@ Variable n : nat.                       (* number of child threads *)
 Variable opsf : nat -> list hop.        (* what each thread does with its handle *)
 Let r0 := Heap b0 l0.
 Let kof := fun _ : nat => 1.
+Let bof := fun _ : nat => false.
 
 Definition prog0 : list pitem :=
   POp (clone_n n r0) :: map (fun i => PSpawn i 1) (seq 1 n) ++ POp (hrun (opsf 0) r0) :: map PJoin (seq 1 n).
 Definition child_prog (i : nat) : list pitem := [POp (hrun (opsf i) r0)].
 Definition tc0 : list tcfg :=
-  {| cur := Ret tt; rest := prog0; gh := g_child b0 1 |}
-  :: map (fun i => {| cur := Ret tt; rest := child_prog i; gh := g_child b0 1 |}) (seq 1 n).
+  {| cur := Ret tt; rest := prog0; gh := g_child b0 1; lt := [] |}
+  :: map (fun i => {| cur := Ret tt; rest := child_prog i; gh := g_child b0 1; lt := [] |}) (seq 1 n).
 Definition cfg0 : cfg := {| ms := Mach.init n; tc := tc0 |}.
 
 Lemma ok_clone_n k : forall g (Q : unit -> ghost -> Prop),
@@ -106,17 +107,17 @@ Qed.
 Lemma settled_give g k : settled g -> settled (g_give b0 g k).
 Proof. intros H b. apply H. Qed.
 
-Lemma prog_ok_joins l g : g_refs g b0 = 0 -> g_free g b0 = false -> prog_ok b0 kof (map PJoin l) g.
+Lemma prog_ok_joins l g : g_refs g b0 = 0 -> g_free g b0 = false -> prog_ok b0 kof bof [] (map PJoin l) g.
 Proof. intros H1 H2. induction l; cbn; auto. Qed.
 
 Lemma prog_ok_spawns l : forall g rest c,
   settled g -> g_refs g b0 = length l + c ->
-  (forall g', settled g' -> g_refs g' b0 = c -> prog_ok b0 kof rest g') ->
-  prog_ok b0 kof (map (fun i => PSpawn i 1) l ++ rest) g.
+  (forall g', settled g' -> g_refs g' b0 = c -> prog_ok b0 kof bof [] rest g') ->
+  prog_ok b0 kof bof [] (map (fun i => PSpawn i 1) l ++ rest) g.
 Proof.
   induction l as [|i l IH]; intros g rest c Hs Hr HQ; cbn [map app prog_ok length] in *.
   - apply HQ; [exact Hs|lia].
-  - split; [lia|]. split; [reflexivity|]. apply (IH _ _ c).
+  - split; [reflexivity|]. split; [lia|]. split; [reflexivity|]. split; [reflexivity|]. apply (IH _ _ c).
     + apply settled_give. exact Hs.
     + unfold g_give. cbn [g_refs]. unfold setf. rewrite Nat.eqb_refl. lia.
     + exact HQ.
@@ -127,12 +128,12 @@ Proof.
   split; [|split; [intros b; reflexivity|]]; unfold r0; cbn [holds g_child g_refs g_free nm]; rewrite Nat.eqb_refl; auto.
 Qed.
 
-Lemma prog0_ok : prog_ok b0 kof prog0 (g_child b0 1).
+Lemma prog0_ok : prog_ok b0 kof bof [] prog0 (g_child b0 1).
 Proof.
-  destruct child_ghost_ok as (Hh & Hs & Hex). unfold prog0. cbn [prog_ok].
+  destruct child_ghost_ok as (Hh & Hs & Hex). unfold prog0. cbn [prog_ok]. split; [reflexivity|].
   apply ok_clone_n; [exact Hh|exact Hs|]. intros g1 S1 E1.
   apply (prog_ok_spawns _ _ _ 1); [exact S1|rewrite seq_length; rewrite E1; cbn [g_child g_refs]; rewrite Nat.eqb_refl; lia|].
-  intros g2 S2 R2. cbn [prog_ok]. apply (ok_hrun b0).
+  intros g2 S2 R2. cbn [prog_ok]. split; [reflexivity|]. apply (ok_hrun b0).
   - unfold r0; cbn [holds]; split; [lia|apply S2].
   - exact S2.
   - unfold r0. cbn [nm]. rewrite Nat.eqb_refl. exact R2.
@@ -140,15 +141,15 @@ Proof.
 Qed.
 
 Lemma nth_tc0 t : t < S n ->
-  nth t tc0 (dtc b0) = {| cur := Ret tt; rest := (if Nat.eqb t 0 then prog0 else child_prog t); gh := g_child b0 1 |}.
+  nth t tc0 (dtc b0) = {| cur := Ret tt; rest := (if Nat.eqb t 0 then prog0 else child_prog t); gh := g_child b0 1; lt := [] |}.
 Proof.
   intros Ht. unfold tc0. destruct t as [|t]; [reflexivity|]. cbn [nth Nat.eqb].
-  rewrite (nth_indep _ _ {| cur := Ret tt; rest := child_prog 0; gh := g_child b0 1 |}) by (rewrite map_length, seq_length; lia).
-  rewrite (map_nth (fun i => {| cur := Ret tt; rest := child_prog i; gh := g_child b0 1 |}) (seq 1 n) 0 t).
+  rewrite (nth_indep _ _ {| cur := Ret tt; rest := child_prog 0; gh := g_child b0 1; lt := [] |}) by (rewrite map_length, seq_length; lia).
+  rewrite (map_nth (fun i => {| cur := Ret tt; rest := child_prog i; gh := g_child b0 1; lt := [] |}) (seq 1 n) 0 t).
   rewrite seq_nth by lia. reflexivity.
 Qed.
 
-Theorem shared_handles_typed : WT b0 kof cfg0.
+Theorem shared_handles_typed : WT b0 kof bof cfg0.
 Proof.
   split; cbn [ms tc cfg0].
   - apply inv_init.
@@ -157,25 +158,30 @@ Proof.
     unfold gettc. cbn [tc]. rewrite nth_tc0 by exact Ht. cbn [cur rest gh].
     pose proof (T_init n t) as E. unfold T in E. rewrite E in Hst |- *.
     destruct t as [|t]; cbn [Nat.eqb] in *; [|cbn in Hst; discriminate].
-    split; [|cbn [okc]; exact prog0_ok].
+    split; [|split; [cbn [okc lt]; exact prog0_ok|split; [intros _; reflexivity|cbn [g_child g_bor]; discriminate]]].
     cbn. unfold agree. cbn. rewrite Nat.eqb_refl. repeat split; auto. discriminate.
   - intros t Ht Hst. unfold tc0 in Ht. cbn [length] in Ht. rewrite map_length, seq_length in Ht.
     unfold gettc. cbn [tc]. rewrite nth_tc0 by exact Ht. cbn [cur rest gh].
     pose proof (T_init n t) as E. unfold T in E. rewrite E in Hst.
     destruct t as [|t]; cbn [Nat.eqb] in *; [cbn in Hst; discriminate|].
-    split; [reflexivity|]. split; [reflexivity|]. unfold child_prog. cbn [prog_ok].
-    destruct child_ghost_ok as (Hh & Hs & Hex). apply (ok_hrun b0); [exact Hh|exact Hs|exact Hex|].
-    intros g' S' R'. cbn [prog_ok]. split; [exact R'|apply S'].
-  - intros u. pose proof (T_init n u) as E. unfold T in E. rewrite E. destruct u; reflexivity.
+    split; [reflexivity|]. split; [reflexivity|]. split; [reflexivity|]. split.
+    + unfold g_init, bof. unfold child_prog. cbn [prog_ok]. split; [reflexivity|].
+      destruct child_ghost_ok as (Hh & Hs & Hex). apply (ok_hrun b0); [exact Hh|exact Hs|exact Hex|].
+      intros g' S' R'. cbn [prog_ok]. split; [reflexivity|]. split; [exact R'|apply S'].
+    + pose proof (T_init n (S t)) as E'. unfold T, getth in E'. unfold getth. rewrite E'. reflexivity.
+  - intros u v. pose proof (T_init n u) as E. unfold T in E. rewrite E. split.
+    + destruct u; cbn; discriminate.
+    + intros (Hv & Hin). unfold tc0 in Hv. cbn [length] in Hv. rewrite map_length, seq_length in Hv.
+      unfold gettc in Hin. cbn [tc] in Hin. rewrite nth_tc0 in Hin by exact Hv. cbn [lt] in Hin. contradiction.
 Qed.
 
 (* every reachable configuration: well typed (so every thread's next event is enabled, Compose.typed_progress), and no
    machine step from it is a data race, a use after free or a double free *)
 Theorem shared_handles_safe cf : csteps b0 cfg0 cf ->
-  WT b0 kof cf /\ forall t a e, step (ms cf) t a <> Err e.
+  WT b0 kof bof cf /\ forall t a e, step (ms cf) t a <> Err e.
 Proof.
-  intros Hs. split; [exact (typed_steps b0 kof _ _ shared_handles_typed Hs)|].
-  intros t a e. exact (typed_safe b0 kof _ _ t a e shared_handles_typed Hs).
+  intros Hs. split; [exact (typed_steps b0 kof bof _ _ shared_handles_typed Hs)|].
+  intros t a e. exact (typed_safe b0 kof bof _ _ t a e shared_handles_typed Hs).
 Qed.
 (* and when every started thread has run to completion the buffer is gone: released exactly once (a second release
    would be a DoubleFree step, excluded above), after the last access (any later access would be a use after free) *)
@@ -183,7 +189,153 @@ Theorem shared_handles_released cf : csteps b0 cfg0 cf ->
   (forall t, t < length (tc cf) -> started (getth (ms cf) t) = true -> finished (gettc b0 cf t)) ->
   Mach.live (ms cf) = false.
 Proof.
-  intros Hs Hfin. apply (all_finished_released b0 kof cf); [|exact Hfin].
-  exact (typed_steps b0 kof _ _ shared_handles_typed Hs).
+  intros Hs Hfin. apply (all_finished_released b0 kof bof cf); [|exact Hfin].
+  exact (typed_steps b0 kof bof _ _ shared_handles_typed Hs).
 Qed.
 End System.
+
+(* ---------- sharing by reference: std::thread::scope ----------
+   Thread 0 owns a handle to the shared buffer and lends &handle to n scoped threads (for every n); each scoped thread
+   runs its own arbitrary sequence of reads THROUGH the borrowed handle and clones through it — every clone is then the
+   scoped thread's own handle, on which it runs any sequence of reads and mutations before dropping it — and the scope
+   ends when all of them have run to completion; afterwards thread 0 runs its own arbitrary sequence on the handle and
+   drops it.  scoped_handles_typed: the initial configuration is well typed, hence all of Compose's theorems apply. *)
+Inductive bop := BRead | BClone (ops : list hop).
+Definition bapply (o : bop) (r : repr) : cmd unit :=
+  match o with
+  | BRead => _ <- as_bytes r ;; Ret tt
+  | BClone ops => r' <- make_shallow_clone r ;; hrun ops r'
+  end.
+Fixpoint brun (ops : list bop) (r : repr) : cmd unit :=
+  match ops with
+  | [] => Ret tt
+  | o :: rest => _ <- bapply o r ;; brun rest r
+  end.
+
+Lemma ok_brun b0 l0 ops : forall g (Q : unit -> ghost -> Prop),
+  borrows g (Heap b0 l0) -> settled g -> g_refs g b0 = 0 ->
+  (forall g', settled g' -> g_refs g' b0 = 0 -> Q tt g') -> okc (brun ops (Heap b0 l0)) g Q.
+Proof.
+  induction ops as [|o rest IH]; intros g Q Hb Hs Hr HQ; cbn [brun].
+  - cbn [okc]. apply HQ; assumption.
+  - apply okc_bind. destruct o as [|ops]; cbn [bapply].
+    + apply okc_bind. apply ok_as_bytes_borrowed; [exact Hb|]. intros t. cbn [okc]. apply IH; assumption.
+    + apply okc_bind. eapply okc_mono; [apply okc_bor; apply ok_clone_borrowed; assumption|].
+      intros r' g1 ((-> & H1 & S1 & Hcnt) & Eb).
+      eapply okc_mono; [apply okc_bor; apply (ok_hrun b0 ops (Heap b0 l0) g1 (fun _ g' => settled g' /\ g_refs g' b0 = 0)); auto|].
+      * rewrite Hcnt, Hr. reflexivity.
+      * intros u g2 ((S2 & R2) & Eb2). apply IH; try assumption.
+        cbn [borrows] in *. rewrite Eb2, Eb. split; [exact (proj1 Hb)|apply S2].
+Qed.
+
+Section Scoped.
+Variable b0 : bufid.
+Variable l0 : N.
+Variable n : nat.                       (* number of scoped threads *)
+Variable bopsf : nat -> list bop.       (* what each scoped thread does through the borrowed handle *)
+Variable ops0 : list hop.               (* what the owner does with its handle after the scope *)
+Let r0 := Heap b0 l0.
+Let kof := fun _ : nat => 0.
+Let bof := fun t : nat => negb (Nat.eqb t 0).
+
+Definition sprog0 : list pitem := map PLend (seq 1 n) ++ map PJoinB (rev (seq 1 n)) ++ [POp (hrun ops0 r0)].
+Definition schild_prog (i : nat) : list pitem := [POp (brun (bopsf i) r0)].
+Definition stc0 : list tcfg :=
+  {| cur := Ret tt; rest := sprog0; gh := g_child b0 1; lt := [] |}
+  :: map (fun i => {| cur := Ret tt; rest := schild_prog i; gh := g_childb b0; lt := [] |}) (seq 1 n).
+Definition scfg0 : cfg := {| ms := Mach.init n; tc := stc0 |}.
+
+(* what the owner's ghost keeps through any number of loans *)
+Definition owner_ok (g : ghost) : Prop :=
+  holds g r0 /\ settled g /\ g_refs g b0 = 1 /\ g_bor g b0 = false.
+Lemma owner_ok_lendout g : owner_ok g -> owner_ok (g_lendout b0 g).
+Proof. intros (H1 & H2 & H3 & H4). unfold owner_ok, g_lendout, r0 in *. cbn [holds g_refs g_free g_bor] in *. auto. Qed.
+
+Lemma remove_head_notin (a : nat) l : ~ In a l -> List.remove Nat.eq_dec a (a :: l) = l.
+Proof.
+  intros H. cbn [List.remove]. destruct (Nat.eq_dec a a) as [_|Hne]; [|contradiction]. apply notin_remove. exact H.
+Qed.
+
+Lemma prog_ok_scope l : forall lent g rest,
+  NoDup l -> (forall i, In i l -> bof i = true /\ ~ In i lent) -> owner_ok g ->
+  (forall g', owner_ok g' -> prog_ok b0 kof bof lent rest g') ->
+  prog_ok b0 kof bof lent (map PLend l ++ map PJoinB (rev l) ++ rest) g.
+Proof.
+  induction l as [|a l IH]; intros lent g rest Hnd Hl Hg HQ.
+  - cbn [map rev app]. apply HQ. exact Hg.
+  - cbn [map rev app prog_ok]. inversion Hnd as [|? ? Hna Hnd']; subst.
+    destruct (Hl a (or_introl eq_refl)) as (Hb & Hnl). destruct Hg as (H1 & H2 & H3 & H4).
+    split; [rewrite H3; lia|]. split; [exact H4|]. split; [exact Hb|].
+    rewrite map_app. cbn [map]. rewrite <- app_assoc. cbn [app].
+    apply IH.
+    + exact Hnd'.
+    + intros i Hi. destruct (Hl i (or_intror Hi)) as (Hbi & Hni). split; [exact Hbi|].
+      intros [E|Hin]; [subst; contradiction|contradiction].
+    + apply owner_ok_lendout. exact (conj H1 (conj H2 (conj H3 H4))).
+    + intros g' Hg'. cbn [prog_ok]. split; [left; reflexivity|]. rewrite remove_head_notin by exact Hnl. apply HQ. exact Hg'.
+Qed.
+
+Lemma sprog0_ok : prog_ok b0 kof bof [] sprog0 (g_child b0 1).
+Proof.
+  unfold sprog0. apply prog_ok_scope.
+  - apply seq_NoDup.
+  - intros i Hi. apply in_seq in Hi. split; [|intros []]. unfold bof. destruct i; [lia|reflexivity].
+  - unfold owner_ok, r0. cbn [holds g_child g_refs g_free g_bor]. rewrite Nat.eqb_refl.
+    split; [split; [lia|reflexivity]|]. split; [intros b; reflexivity|]. split; reflexivity.
+  - intros g' (H1 & H2 & H3 & H4). cbn [prog_ok]. split; [reflexivity|]. apply (ok_hrun b0); [exact H1|exact H2| |].
+    + unfold r0. cbn [nm]. rewrite Nat.eqb_refl. exact H3.
+    + intros g2 S2 R2. cbn [prog_ok]. split; [reflexivity|]. split; [exact R2|apply S2].
+Qed.
+
+Lemma nth_stc0 t : t < S n ->
+  nth t stc0 (dtc b0) = {| cur := Ret tt; rest := (if Nat.eqb t 0 then sprog0 else schild_prog t);
+                           gh := (if Nat.eqb t 0 then g_child b0 1 else g_childb b0); lt := [] |}.
+Proof.
+  intros Ht. unfold stc0. destruct t as [|t]; [reflexivity|]. cbn [nth Nat.eqb].
+  rewrite (nth_indep _ _ {| cur := Ret tt; rest := schild_prog 0; gh := g_childb b0; lt := [] |}) by (rewrite map_length, seq_length; lia).
+  rewrite (map_nth (fun i => {| cur := Ret tt; rest := schild_prog i; gh := g_childb b0; lt := [] |}) (seq 1 n) 0 t).
+  rewrite seq_nth by lia. reflexivity.
+Qed.
+
+Theorem scoped_handles_typed : WT b0 kof bof scfg0.
+Proof.
+  split; cbn [ms tc scfg0].
+  - apply inv_init.
+  - unfold stc0, Mach.init. cbn [length ths]. rewrite map_length, seq_length, repeat_length. reflexivity.
+  - intros t Ht Hst. unfold stc0 in Ht. cbn [length] in Ht. rewrite map_length, seq_length in Ht.
+    unfold gettc. cbn [tc]. rewrite nth_stc0 by exact Ht. cbn [cur rest gh lt].
+    pose proof (T_init n t) as E. unfold T in E. rewrite E in Hst |- *.
+    destruct t as [|t]; cbn [Nat.eqb] in *; [|cbn in Hst; discriminate].
+    split; [|split; [cbn [okc]; exact sprog0_ok|split; [intros _; reflexivity|cbn [g_child g_bor]; discriminate]]].
+    cbn. unfold agree. cbn. rewrite Nat.eqb_refl. repeat split; auto. discriminate.
+  - intros t Ht Hst. unfold stc0 in Ht. cbn [length] in Ht. rewrite map_length, seq_length in Ht.
+    unfold gettc. cbn [tc]. rewrite nth_stc0 by exact Ht. cbn [cur rest gh lt].
+    pose proof (T_init n t) as E. unfold T in E. rewrite E in Hst.
+    destruct t as [|t]; cbn [Nat.eqb] in *; [cbn in Hst; discriminate|].
+    split; [reflexivity|]. unfold g_init, bof. cbn [Nat.eqb negb]. split; [reflexivity|]. split; [reflexivity|]. split.
+    + unfold schild_prog. cbn [prog_ok]. split; [reflexivity|]. apply (ok_brun b0 l0).
+      * cbn [borrows g_childb g_bor g_free]. rewrite Nat.eqb_refl. auto.
+      * intros b. reflexivity.
+      * reflexivity.
+      * intros g' S' R'. cbn [prog_ok]. split; [reflexivity|]. split; [exact R'|apply S'].
+    + pose proof (T_init n (S t)) as E'. unfold T, getth in E'. unfold getth. rewrite E'. reflexivity.
+  - intros u v. pose proof (T_init n u) as E. unfold T in E. rewrite E. split.
+    + destruct u; cbn; discriminate.
+    + intros (Hv & Hin). unfold stc0 in Hv. cbn [length] in Hv. rewrite map_length, seq_length in Hv.
+      unfold gettc in Hin. cbn [tc] in Hin. rewrite nth_stc0 in Hin by exact Hv. cbn [lt] in Hin. contradiction.
+Qed.
+
+Theorem scoped_handles_safe cf : csteps b0 scfg0 cf ->
+  WT b0 kof bof cf /\ forall t a e, step (ms cf) t a <> Err e.
+Proof.
+  intros Hs. split; [exact (typed_steps b0 kof bof _ _ scoped_handles_typed Hs)|].
+  intros t a e. exact (typed_safe b0 kof bof _ _ t a e scoped_handles_typed Hs).
+Qed.
+Theorem scoped_handles_released cf : csteps b0 scfg0 cf ->
+  (forall t, t < length (tc cf) -> started (getth (ms cf) t) = true -> finished (gettc b0 cf t)) ->
+  Mach.live (ms cf) = false.
+Proof.
+  intros Hs Hfin. apply (all_finished_released b0 kof bof cf); [|exact Hfin].
+  exact (typed_steps b0 kof bof _ _ scoped_handles_typed Hs).
+Qed.
+End Scoped.
